@@ -2,6 +2,7 @@
 // fingerprint-and-refill step on seeded inputs; records inputs and outputs (no oracle here).
 // usage: rx_aes --seed N --tier quick|thorough --out FILE
 #include "vh.hpp"
+#include <sys/mman.h>
 #include "aes_hash.hpp"
 #include "soft_aes.h"
 #include "intrin_portable.h"
@@ -56,6 +57,24 @@ static void hashfill_ev(Rng& rng, size_t nblocks) {
 		.limbs("soft_hash", h1, 64).limbs("hard_hash", h2, 64).limbs("soft_sp", a.p, a.n).limbs("hard_sp", b.p, b.n)
 		.limbs("soft_fill", f1, 64).limbs("hard_fill", f2, 64).boolean("guard", a.intact() && b.intact());
 	l.emit(out);
+}
+
+// a 2 GiB (+ k blocks) input of zero pages: sizes that do not fit a signed / unsigned 32-bit integer.  The fingerprint cannot be
+// recomputed by the specification (2^25 blocks); recorded are the fingerprint, the fingerprint of the empty input and the one of the
+// input truncated to (size mod 2^32) bytes, which a 32-bit length would produce
+static void huge_hash(size_t bytes, bool alsoSoft) {
+	uint8_t* z = (uint8_t*)mmap(nullptr, bytes, PROT_READ, MAP_PRIVATE | MAP_ANONYMOUS | MAP_NORESERVE, -1, 0);
+	if (z == MAP_FAILED) return;
+	alignas(16) uint8_t hh[64], hs[64], he[64], ht[64];
+	hashAes1Rx4<false>(z, bytes, hh);
+	if (alsoSoft) hashAes1Rx4<true>(z, bytes, hs);
+	hashAes1Rx4<false>(z, 0, he);
+	hashAes1Rx4<false>(z, (size_t)(uint32_t)bytes, ht);
+	Line l; l.str("e", "hugehash").num("sizeHigh", (long long)(bytes >> 32)).num("sizeLow31", (long long)(bytes & 0x7fffffffu)).boolean("bit31", (bytes >> 31) & 1)
+		.limbs("hard", hh, 64).limbs("empty", he, 64).limbs("trunc", ht, 64).boolean("hasSoft", alsoSoft);
+	if (alsoSoft) l.limbs("soft", hs, 64);
+	l.emit(out);
+	munmap(z, bytes);
 }
 
 static long long diffcount(const uint8_t* a, const uint8_t* b, size_t n) { long long d = 0; for (size_t i = 0; i < n; ++i) d += a[i] != b[i]; return d; }
@@ -133,6 +152,11 @@ int main(int argc, char** argv) {
 	big_fill(rng, true, 2097152, thorough ? 100 : 10);
 	big_hash(rng, 2097152, thorough);
 	big_hash(rng, 65536, true);
+	// sizes of 2^31 and 2^32 bytes and beyond (hardware AES; the software path too in the thorough tier)
+#if defined(__AES__)
+	huge_hash((size_t)1 << 31, thorough);
+	huge_hash(((size_t)1 << 32) + 64 * (1 + rng.below(1000)), false);
+#endif
 	fclose(out);
 	return 0;
 }
